@@ -351,6 +351,55 @@ func TestVerifCodec(t *testing.T) {
 			m(q)
 		}
 	}
+	// 2b. every combination of the flag fields in their legal ranges, for each packet type that has flags
+	//     (the random stream above reaches a given combination of four fields only now and then)
+	emitE := func(p pkts.Packet) {
+		canon := VerifCanon(p)
+		packed, pm := vSafePack(p)
+		if pm != "" {
+			fmt.Fprintf(w, "E %s => PANIC\n", canon)
+			return
+		}
+		fmt.Fprintf(w, "E %s => %s | %s\n", canon, vhex(packed), vDecodeResult(packed))
+	}
+	bools := []bool{false, true}
+	for _, dup := range bools {
+		for qos := uint8(0); qos <= 3; qos++ {
+			for _, retain := range bools {
+				for tit := uint8(0); tit <= 2; tit++ {
+					p := NewPublish(vU16(r), vBytes(r, r.Intn(6)), dup, qos, retain, tit)
+					p.SetMessageID(vU16(r))
+					emitE(p)
+				}
+			}
+			for tit := uint8(0); tit <= 2; tit++ {
+				if qos <= 2 {
+					sp := NewSubscribe(string(vBytes(r, 1+r.Intn(5))), vU16(r), dup, qos, tit)
+					sp.SetMessageID(vU16(r))
+					emitE(sp)
+				}
+			}
+		}
+	}
+	for qos := uint8(0); qos <= 2; qos++ {
+		for _, retain := range bools {
+			emitE(NewWillTopic(string(vBytes(r, 1+r.Intn(5))), qos, retain))
+			emitE(NewWillTopicUpd(string(vBytes(r, 1+r.Intn(5))), qos, retain))
+		}
+		sa := NewSuback(vU16(r), ReturnCode(uint8(r.Intn(4))), qos)
+		sa.SetMessageID(vU16(r))
+		emitE(sa)
+	}
+	for tit := uint8(0); tit <= 2; tit++ {
+		up := NewUnsubscribe(string(vBytes(r, 1+r.Intn(5))), vU16(r), tit)
+		up.SetMessageID(vU16(r))
+		emitE(up)
+	}
+	for _, will := range bools {
+		for _, clean := range bools {
+			emitE(NewConnect(vU16(r), vBytes(r, 1+r.Intn(8)), will, clean))
+		}
+	}
 	// AUTH method-length edge cases
 	for _, ml := range []int{0, 1, 2, 5, 252, 253, 254, 255} {
 		for _, bl := range []int{0, 1, 2, 3, 4, 5, 6, 7, 250, 251, 252, 253, 254, 255, 256, 257, 258, 259, 260} {
